@@ -85,8 +85,22 @@ fn real_run<C: frost_rerandomized::RandomizedCiphersuite>(prop: &str, p: &Params
     (lab.checks, fails)
 }
 
+fn real_run_tr(p: &Params, seed: u64, model: &[(String, String)]) -> (u64, Vec<String>) {
+    let mut lab = ConcLab::<frost_secp256k1_tr::Secp256K1Sha256TR>::new(seed, model);
+    let r = catch_unwind(AssertUnwindSafe(|| scen_tr::run(&mut lab, p)));
+    let mut fails = lab.failures.clone();
+    if r.is_err() {
+        fails.push(format!("panic: {}", symlab::take_panic().unwrap_or_default()));
+    }
+    (lab.checks, fails)
+}
+
 fn real_run_on(order: &str, prop: &str, p: &Params, seed: u64, model: &[(String, String)]) -> (u64, Vec<String>, &'static str) {
     match order {
+        "secp256k1-tr" => {
+            let (c, f) = real_run_tr(p, seed, model);
+            (c, f, "frost-secp256k1-tr")
+        }
         "p256" => {
             let (c, f) = real_run::<frost_p256::P256Sha256>(prop, p, seed, model);
             (c, f, "frost-p256")
@@ -132,6 +146,17 @@ fn main() {
     let prop = args.prop.clone();
     let tier = if args.thorough { "thorough" } else { "quick" };
 
+    if prop == "tr-run" {
+        // helper for workspace B: run a Taproot scenario case concretely on the real crate
+        let path = std::env::args().nth(2).expect("request file");
+        let v: serde_json::Value = serde_json::from_str(&std::fs::read_to_string(&path).expect("request")).expect("json");
+        let p = Params::from_json(&v["params"]).expect("params");
+        let model: Vec<(String, String)> =
+            v["model"].as_array().cloned().unwrap_or_default().iter().map(|x| (x[0].as_str().unwrap().to_string(), x[1].as_str().unwrap().to_string())).collect();
+        let (checks, fails) = real_run_tr(&p, v["seed"].as_u64().unwrap_or(1), &model);
+        println!("{}", json!({"checks": checks, "failures": fails}));
+        std::process::exit(0);
+    }
     if prop == "pin-spec" {
         let (n, fails) = pin::pin_all();
         println!("pin-spec: {n} values of the RFC 9591 transcription compared with the RFC vectors of 5 suites, {} mismatches", fails.len());
@@ -192,213 +217,28 @@ fn main() {
         r
     });
 
-    // ---- aggregate
-    let mut total = symcore::Stats::default();
-    let mut paths = 0u64;
-    let mut failures: Vec<(usize, symcore::Failure)> = vec![];
-    let mut truncated = 0;
-    let mut samples = vec![];
-    let mut smt_samples = vec![];
-    let mut assumptions: Vec<String> = vec![];
-    let mut solver_errors = vec![];
-    for (k, r) in results.iter().enumerate() {
-        symlab::add_stats(&mut total, &r.stats);
-        paths += r.paths;
-        if r.truncated {
-            truncated += 1;
-        }
-        for f in &r.failures {
-            failures.push((k, f.clone()));
-        }
-        if samples.len() < 8 {
-            for o in r.sample_obligations.iter().take(3) {
-                samples.push(json!({"case": r.desc, "rule": o.rule, "obligation": o.label, "detail": o.detail, "discharged": o.ok}));
-            }
-        }
-        if smt_samples.len() < 2 {
-            smt_samples.extend(r.sample_smt.iter().take(1).cloned());
-        }
-        for a in &r.assumptions {
-            // strip case-specific labels to keep the list short
-            let key: String = a.chars().take(90).collect();
-            if assumptions.len() < 30 && !assumptions.contains(&key) {
-                assumptions.push(key);
-            }
-        }
-        solver_errors.extend(r.solver_errors.iter().cloned());
-    }
-
-    // ---- concrete validation of the encoding on the real suites
-    let nval = if args.thorough { 48 } else { 12 }.min(cases.len());
-    let mut validated = 0u64;
-    let mut val_checks = 0u64;
-    let mut conc_failures: Vec<(usize, &'static str, Vec<String>, u64)> = vec![];
-    if nval > 0 {
-        let step = (cases.len() / nval).max(1);
-        let suites: &[&str] = if args.thorough { &["ed25519", "p256", "secp256k1", "ed448", "ed25519-real"] } else { &["ed25519", "p256"] };
-        for (j, ci) in (0..cases.len()).step_by(step).take(nval).enumerate() {
-            let order = suites[j % suites.len()];
-            let seed = args.seed.wrapping_mul(1000).wrapping_add(j as u64);
-            let (c, f, suite) = real_run_on(order, &prop, &cases[ci], seed, &[]);
-            validated += 1;
-            val_checks += c;
-            if !f.is_empty() {
-                conc_failures.push((ci, suite, f, seed));
-            }
-        }
-    }
-
-    // ---- classify failures: replay solver models on the real code
-    let known = load_known(&prop);
-    let mut violations = 0;
-    let mut inconclusive = 0;
-    let mut known_hits: Vec<String> = vec![];
-    let mut reported: Vec<String> = vec![];
-    std::fs::create_dir_all("/verif/replays").ok();
-    let is_known = |label: &str| known.iter().any(|(st, m)| st == "open" && label.contains(m.as_str()));
-    let mut replayed = 0u64;
-    for (k, f) in failures.iter() {
-        if f.inconclusive {
-            inconclusive += 1;
-            if reported.len() < 10 {
-                reported.push(format!("INCONCLUSIVE property={prop} case={} {}: {}", results[*k].desc, f.label, f.detail));
-            }
-            continue;
-        }
-        let (ci, order, p) = &items[*k];
-        let _ = ci;
-        // replay only the first few distinct labels (replays are cheap but output should stay readable)
-        if reported.iter().filter(|r| r.starts_with("VIOLATION")).count() >= 5 {
-            violations += 1;
-            continue;
-        }
-        let seed = args.seed;
-        let (checks, cf, suite) = real_run_on(order, &prop, p, seed, &f.model);
-        replayed += 1;
-        if cf.is_empty() {
-            inconclusive += 1;
-            reported.push(format!(
-                "INCONCLUSIVE property={prop} case={} symbolic failure `{}` ({}) did not reproduce on {suite} ({checks} concrete obligations passed)",
-                results[*k].desc, f.label, f.detail
-            ));
-            continue;
-        }
-        if is_known(&f.label) || cf.iter().any(|c| is_known(c)) {
-            let line = format!("KNOWN-FINDING: property={prop} {}", f.label);
-            if !known_hits.contains(&line) {
-                known_hits.push(line);
-            }
-            continue;
-        }
-        violations += 1;
-        let path = format!("/verif/replays/{prop}-{}.json", violations);
-        let rj = json!({
-            "property": prop, "order": order, "seed": seed, "params": p.to_json(), "case": results[*k].desc,
-            "symbolic_failure": {"label": f.label, "detail": f.detail},
-            "model": f.model.iter().map(|(a, b)| json!([a, b])).collect::<Vec<_>>(),
-            "concrete_failures_on_real_suite": cf, "suite": suite,
-            "replay_cmd": format!("./check {prop} --replay {path}"),
-        });
-        std::fs::write(&path, serde_json::to_string_pretty(&rj).unwrap()).ok();
-        reported.push(format!("VIOLATION property={prop} replay={path}"));
-        reported.push(format!("  symbolic: {} — {}", f.label, f.detail));
-        reported.push(format!("  reproduced on {suite}: {}", cf.join("; ")));
-    }
-    for (ci, suite, cf, seed) in conc_failures.iter() {
-        if cf.iter().any(|c| is_known(c)) {
-            let line = format!("KNOWN-FINDING: property={prop} {}", cf[0]);
-            if !known_hits.contains(&line) {
-                known_hits.push(line);
-            }
-            continue;
-        }
-        violations += 1;
-        let path = format!("/verif/replays/{prop}-conc-{}.json", violations);
-        let order = match *suite {
-            "frost-p256" => "p256",
-            "frost-secp256k1" => "secp256k1",
-            "frost-ed448" => "ed448",
-            "frost-ed25519" => "ed25519-real",
-            _ => "ed25519",
-        };
-        let rj = json!({"property": prop, "order": order, "seed": seed, "params": cases[*ci].to_json(), "model": [],
-            "concrete_failures_on_real_suite": cf, "suite": suite});
-        std::fs::write(&path, serde_json::to_string_pretty(&rj).unwrap()).ok();
-        reported.push(format!("VIOLATION property={prop} replay={path}"));
-        reported.push(format!("  concrete run on {suite}: {}", cf.join("; ")));
-    }
-    if truncated > 0 {
-        inconclusive += 1;
-        reported.push(format!("INCONCLUSIVE property={prop}: {truncated} case(s) exceeded the path budget of {max_paths}"));
-    }
-    if !solver_errors.is_empty() {
-        inconclusive += 1;
-        reported.push(format!("INCONCLUSIVE property={prop}: solver error lines: {:?}", &solver_errors[..solver_errors.len().min(3)]));
-    }
-    if total.obligations == 0 {
-        inconclusive += 1;
-        reported.push(format!("INCONCLUSIVE property={prop}: no obligations were generated (vacuous run)"));
-    }
-
-    // ---- evidence
-    let wall = t0.elapsed().as_secs_f64();
-    let by_rule: BTreeMap<String, u64> = total.by_rule.iter().map(|(k, v)| (k.to_string(), *v)).collect();
-    let q_hex: Vec<String> = orders.iter().map(|o| format!("{o}: 0x{}", symcore::order_hex(o))).collect();
-    let ev = json!({
-        "property_id": prop, "tier": tier, "seed": args.seed, "level": "model_checking",
-        "coverage": {
-            "states": paths.max(1), "transitions": (total.decisions_valid + total.decisions_infeasible + total.forks + total.assumed + total.obligations).max(1),
-            "traces_validated_against_impl": validated + replayed,
-            "samples": samples,
-            "exhaustive": truncated == 0,
-            "engine": "E1 symfrost: native symbolic execution of the real generic code over term-valued Scalar/Element; decisions and obligations discharged by z3 (QF_NIA, mod q)",
-            "functions_encoded": m.functions,
-            "bounds": { "cases": cases.len(), "orders": orders, "tier": tier, "structure": m.bounds, "max_paths_per_case": max_paths },
-            "scenario_cases": items.len(), "symbolic_paths": paths,
-            "obligations": total.obligations, "discharged": total.discharged, "by_rule": by_rule,
-            "branch_decisions": {"valid_by_solver": total.decisions_valid, "infeasible_by_solver": total.decisions_infeasible, "forks": total.forks, "generic_position_assumptions": total.assumed},
-            "solver": {"binary": std::env::var("SYMFROST_Z3").unwrap_or("/usr/bin/z3".into()), "logic": "QF_NIA with (mod _ q)", "queries": total.z3_queries, "unsat": total.z3_unsat, "sat": total.z3_sat, "unknown": total.z3_unknown, "queries_resent_after_polynomial_normalisation": total.normalized_fallbacks},
-            "solver_s": total.z3_ms / 1000.0,
-            "q": q_hex,
-            "uf_applications": total.uf_apps, "term_nodes": total.nodes, "path_models_confirmed_by_solver": total.worlds_confirmed, "naf_multiscalar_calls_decoded": total.naf_calls,
-            "concrete_validation": {"runs_on_real_suites": validated, "concrete_obligations_checked": val_checks, "failed_runs": conc_failures.len()},
-            "sample_smt": smt_samples,
-            "stubs": m.stubs, "outside_claim": m.outside,
-            "inconclusive_events": inconclusive, "known_findings_hit": known_hits,
+    let code = symlab::report::finish(
+        symlab::report::ReportArgs {
+            prop: &prop,
+            tier,
+            seed: args.seed,
+            thorough: args.thorough,
+            out: &args.out,
+            orders: orders.clone(),
+            validation_suites: if args.thorough { vec!["ed25519", "p256", "secp256k1", "ed448", "ed25519-real"] } else { vec!["ed25519", "p256"] },
+            max_paths,
+            wall_start: t0,
+            extra_inconclusive: vec![],
+            extra_coverage: serde_json::Value::Null,
         },
-        "assumptions": assumptions.iter().cloned().chain(m.assumptions.iter().map(|s| s.to_string())).collect::<Vec<_>>(),
-        "wall_s": wall, "violations": violations,
-    });
-    if let Some(dir) = std::path::Path::new(&args.out).parent() {
-        std::fs::create_dir_all(dir).ok();
-    }
-    std::fs::write(&args.out, serde_json::to_string_pretty(&ev).unwrap()).expect("write evidence");
-
-    {
-        let mut hist: BTreeMap<String, (u64, bool)> = BTreeMap::new();
-        for (_, f) in failures.iter() {
-            let e = hist.entry(f.label.clone()).or_insert((0, f.inconclusive));
-            e.0 += 1;
-        }
-        for (l, (n, inc)) in hist.iter().take(25) {
-            println!("  failure-label x{n}{}: {l}", if *inc { " [engine/inconclusive]" } else { "" });
-        }
-    }
-    for l in &known_hits {
-        println!("{l}");
-    }
-    for l in &reported {
-        println!("{l}");
-    }
-    println!(
-        "{prop} [{tier}] cases={} paths={} obligations={} discharged={} by_rule={:?} z3: {} queries ({} unsat, {} sat, {} unknown) {:.1}s solver; validated {} concrete runs; wall {:.1}s",
-        items.len(), paths, total.obligations, total.discharged, total.by_rule, total.z3_queries, total.z3_unsat, total.z3_sat, total.z3_unknown, total.z3_ms / 1000.0, validated, wall
+        symlab::report::MetaView { functions: m.functions, bounds: m.bounds, stubs: m.stubs, outside: m.outside, assumptions: m.assumptions, engine: "E1 symfrost: native symbolic execution of the real generic code over term-valued Scalar/Element; decisions and obligations discharged by z3 (QF_NIA, mod q)" },
+        &cases,
+        &items,
+        &results,
+        &|order, prop, p, seed, model| {
+            let (c, f, s) = real_run_on(order, prop, p, seed, model);
+            (c, f, s.to_string())
+        },
     );
-    if violations > 0 {
-        std::process::exit(1);
-    }
-    if inconclusive > 0 {
-        std::process::exit(2);
-    }
-    std::process::exit(0);
+    std::process::exit(code);
 }
